@@ -73,6 +73,9 @@ InvPathOK == Done => PathOK(st) /\ KlineOK(st)
 (* the nk chosen from dk / length is the nearest integer of distance / dk (plus one) *)
 InvRound == spec.mode \in {"dk", "length"} =>
                \A k \in 1..Len(nodes) : StartsSegment(nodes, k) => RoundIsNearest(Dist2(nodes[k], nodes[k + 1], spec.A), spec.inv)
+(* ... and is one of the samplings the relaxed binding accepts for dk / length (DkSpacingOK) *)
+InvDkSpacing == spec.mode \in {"dk", "length"} =>
+               \A k \in 1..Len(nodes) : StartsSegment(nodes, k) => DkSpacingOK(Dist2(nodes[k], nodes[k + 1], spec.A), spec.inv, NkDecl(nodes, spec, k))
 (* C29, path coordinate *)
 InvKline == Done => /\ KlineMonotone(st, LatA) /\ KlineFlatAtBreaks(st, LatA) /\ KlineIsDistance(st, LatA)
                     /\ KlineUniform(nodes, spec, st, LatA)
